@@ -84,15 +84,13 @@ pub fn k_c29_validate_accepts_satisfying() {
         v = v + if i % 2 == 0 { k0 } else { k1 };
         i += 1;
     }
-    // the cell after the last non-exempt step is unconstrained
-    col[7] = any_tiny();
     let trace = TraceTable::init(alloc::vec![col]);
     let air = MockAir::new(trace.info().clone(), Pub(start, k0, k1), options());
     trace.validate::<MockAir, Tiny>(&air, None);
     vreach!("C29.validate.accepts.reach");
 }
 
-//# harness: fn=Trace::validate (rejects every unsatisfying trace); label=bounded(F_17, mock AIR, trace length 8, one corrupted cell at a symbolic non-exempt position); tier=quick; panics=ignore; replay=no; timeout=900
+//# harness: fn=Trace::validate (rejects every unsatisfying trace); label=bounded(F_17, mock AIR, trace length 8, one corrupted cell at a symbolic position); tier=quick; panics=ignore; replay=no; timeout=900
 #[cfg_attr(kani, kani::proof)]
 #[cfg_attr(kani, kani::unwind(12))]
 #[cfg_attr(kani, kani::stub(alloc::fmt::format, vs::fake_format))]
@@ -106,10 +104,10 @@ pub fn k_c29_validate_rejects_unsatisfying() {
         v = v + if i % 2 == 0 { k0 } else { k1 };
         i += 1;
     }
-    // corrupt one cell among steps 0..=6 (a change of cell 7 alone is not a violation: the last
-    // step is exempt and no assertion touches it)
+    // corrupt one cell: cell 0 breaks the assertion (and the first transition), cells 1..=7 break
+    // the transition into them (with one exemption only the wrap-around step 7 -> 0 is exempt)
     let pos = vs::any_usize();
-    vs::assume(pos <= 6);
+    vs::assume(pos <= 7);
     let delta = any_tiny();
     vs::assume(delta != Tiny::ZERO);
     col[pos] = col[pos] + delta;
